@@ -352,6 +352,7 @@ def _r2(run, prog, inst, mods):
     def run_conv(special):
         """special: the file type is one of the three whose charge is that of the recombined ion. Returns the list of stores."""
         out = []
+        nodes = {}
 
         def truth(t):
             if isinstance(t, ast.UnaryOp) and isinstance(t.op, ast.Not):
@@ -411,7 +412,24 @@ def _r2(run, prog, inst, mods):
                     v = st.value
                     if (isinstance(v, ast.Call) and (dotted(v.func) or '').endswith(('RecursiveDict', 'dict', 'OrderedDict'))) or isinstance(v, ast.Dict):
                         ev.env[st.targets[0].id] = L('OUT')
+                        nodes.pop(st.targets[0].id, None)
                     else:
+                        # a name for a node of the output tree (node = out[element][charge]): later stores through it extend that chain
+                        chain, t = [], v
+                        while isinstance(t, ast.Subscript):
+                            chain.append(t.slice)
+                            t = t.value
+                        chain.reverse()
+                        root = None
+                        if isinstance(t, ast.Name) and chain:
+                            if t.id in nodes:
+                                root = nodes[t.id]
+                            elif t.id in ev.env and ev.env[t.id].key() == 'OUT':
+                                root = (ev.env[t.id], [])
+                        if root is not None:
+                            nodes[st.targets[0].id] = (root[0], root[1] + [(c.value if isinstance(c, ast.Constant) and isinstance(c.value, str) else ev.ev(c)) for c in chain])
+                        else:
+                            nodes.pop(st.targets[0].id, None)
                         ev.env[st.targets[0].id] = ev.ev(v)
                 elif isinstance(st, ast.Assign) and len(st.targets) == 1 and isinstance(st.targets[0], ast.Subscript):
                     chain, t = [], st.targets[0]
@@ -420,7 +438,10 @@ def _r2(run, prog, inst, mods):
                         t = t.value
                     chain.reverse()
                     base = ev.ev(t) if isinstance(t, ast.Name) and t.id in ev.env else L(norm(t))
-                    out.append((base, [(c.value if isinstance(c, ast.Constant) and isinstance(c.value, str) else ev.ev(c)) for c in chain], ev.ev(st.value), st))
+                    keys = [(c.value if isinstance(c, ast.Constant) and isinstance(c.value, str) else ev.ev(c)) for c in chain]
+                    if isinstance(t, ast.Name) and t.id in nodes:
+                        base, keys = nodes[t.id][0], nodes[t.id][1] + keys
+                    out.append((base, keys, ev.ev(st.value), st))
                 elif isinstance(st, ast.AugAssign):
                     raise _U('in-place update %s' % norm(st)[:50])
                 else:
